@@ -6,10 +6,14 @@ C07 along the node's chain, and to the spelling of the chain."""
 from __future__ import annotations
 
 import itertools
+import json
+import os
 import random
 import signal
+import subprocess
 import sys
 import types
+from pathlib import Path
 from dataclasses import dataclass
 
 from pyoak.legacy.match.error import ASTXpathDefinitionError
@@ -37,12 +41,35 @@ THEOREMS = ["PyOak.C20." + t for t in [
 THEOREMS += ["PyOak.C20." + t for t in [
     "lparseXPath_render", "lparseXPath_render_rel", "legacy_text_agrees_with_successor", "calc_final", "calc_eq_get_xpath",
     "lparseXPath_unknown_class_rejected", "parseXPath_unknown_class_rejected"]]
+# THE LINK TO THE LEGACY HEAP (Props/C20Heap*.lean, C20ParentClean.lean): the abstraction function treeOf from the C18 heap
+# to tree values, the heap's parent chain = the chain of the represented tree, the heap-level matcher / walkers /
+# calculate_xpath (Model/LegacyHeapWalk.lean: they follow the heap's parent pointers and child fields) = the chain- / tree-level
+# models = the successor on the represented tree, for every Inv + acyclic + parent-clean state, hence after every admissible history
+THEOREMS += ["PyOak.C20." + t for t in [
+    "treeOf_unfold", "treeOf_edges", "treeOf_children", "treeOf_noRepeat", "treeOf_size_le", "mem_allNodes_treeOf",
+    "kidList_nodup", "desc_comparable", "heapChain_isChain", "topOf_spec", "heapChain_unique",
+    "lmatchElemH_eq", "lmatchH_eq_lmatch", "lxmatchH_eq_lxmatch", "legacy_match_heap", "legacy_match_heap_successor",
+    "legacy_match_heap_text", "legacy_match_heap_detached", "topOf_of_desc", "findall_heap",
+    "parentClean_step", "parentClean_run", "parentClean_run_init", "reachable_ok", "legacy_match_heap_run",
+    "ldfsLoop_fuel", "lbfsLoop_fuel", "hdfsLoop_sim", "hbfsLoop_sim", "heap_dfs_of_size", "heap_bfs_of_size", "heap_dfs", "heap_bfs", "heap_gather",
+    "heap_dfs_successor", "heap_bfs_successor", "heap_gather_successor", "heap_items_agree",
+    "hsetXpath_eq", "heap_calc_xpath", "heap_calc_refused", "heap_calc_eq_get_xpath", "heap_walks_run",
+    "legacy_match_heap_dirty_fails"]]
 PARTIAL = ["text level: proved for written paths with canonical decimal indices and any admissible white space "
            "(lparseXPath_render / lparseXPath_render_rel: lexer, step parser, transformer walk and matcher composed); "
            "zero-padded numerals and WHICH malformed texts are rejected (beyond a class that is not a node class: "
            "lparseXPath_unknown_class_rejected) have no theorem (correspondence only; the model's "
-           "lparseXPath collapses every failure to the one definition error); the node's parent chain is an argument of "
-           "the match theorems - the link from the legacy heap's parent pointers (C18) to that chain is not proved"]
+           "lparseXPath collapses every failure to the one definition error)",
+           "heap link (legacy_match_heap, heap_dfs / heap_bfs / heap_gather, heap_calc_xpath and their *_run corollaries): proved "
+           "for every state satisfying C18's Inv whose child graph is acyclic (C18.Ranked; Inv alone admits cycles: "
+           "C18.cyclic_reachable) and whose parent slots are clean (ParentClean, an invariant of EVERY step whatever its "
+           "outcome: parentClean_step; without it the statement is false: legacy_match_heap_dirty_fails), hence after every "
+           "ADMISSIBLE history from the empty world (C18.AdmRun: side conditions of C18 on construct / replace requests, "
+           "no node put below itself, every outcome a return or a documented error) and for every ATTACHED node; for objects that are "
+           "not attached only the matcher is covered (legacy_match_heap_detached: the one-member chain) and the walks under an "
+           "explicit size hypothesis (heap_dfs_of_size / heap_bfs_of_size); nothing is claimed for histories through the transform visitor "
+           "(stepX), which C18 treats as runs of primitive operations; the cached `_xpath` attribute is not part of the heap "
+           "model: heap_calc_xpath states the assignments calculate_xpath makes, not later reads of node.xpath"]
 RULE = ("attached legacy trees from harness/zoo_c20.py (single / optional / tuple / list child fields, subclass chain, "
         "collections of length 11-14, content-identical twins) x start node (root and inner nodes) x prune / filter "
         "predicates given as subsets of node objects x bottom_up x skip_self; thorough additionally enumerates all "
@@ -57,11 +84,23 @@ RULE = ("attached legacy trees from harness/zoo_c20.py (single / optional / tupl
         "model's spelling of its chain.  ORDER OF DEFINITION histories: a text naming a fresh class is used before the "
         "class exists (must be rejected with the definition error), the class is then defined (exec in a throw-away "
         "module, subclass of a zoo class or of another late class), the same text and new texts are compiled and "
-        "matched against the model with the extended class table.  Non-trivial = tree (or start subtree) has >= 3 nodes (for xpath: and the "
+        "matched against the model with the extended class table.  HEAP level (request lhxpath, harness/c20_heap_worker.py in a "
+        "fresh process with the C18 zoo): seeded histories of real legacy operations (the C18 / C19 generator: construct, attach, "
+        "detach, detach_self, replace, replace_with, duplicate, accepted and rejected mixed, 15-40 operations), then on the final "
+        "state for EVERY object ever seen, attached or not: ASTXpath(text).match(obj) for 6-10 texts spelled from the real parent "
+        "chains (kept / perturbed class, field, index, // gaps, relative and absolute, malformed and unknown-class texts), "
+        "list(obj.ancestors()), obj.dfs x {bottom_up} x {skip_self}, obj.bfs x {skip_self}, obj.gather, with prune / filter as "
+        "random object sets, obj.calculate_xpath() + the xpath of every node below; the model replays the history on its heap and "
+        "answers with the heap-level definitions (lxmatchH, Legacy.ancestors, hdfsImpl, hbfsImpl, hgatherImpl, hcalcXpath).  "
+        "Non-trivial = tree (or start subtree) has >= 3 nodes (for xpath: and the "
         "text parses and matches at least one node); distinct by request line")
-TRUSTED = ["lark LALR engine + contextual lexer are re-modelled by a hand-written lexer / recursive-descent parser",
-           "the parent / parent_field / parent_index bookkeeping of an attached legacy tree agrees with the storage "
-           "positions (that is property C18); the model reads the chain off the structure",
+TRUSTED = ["heap-level cases: the model heap after the history equals the real object graph (that is C18's K1 correspondence, "
+           "which dumps parent / parent_field / parent_index / child fields of every object after every operation); a "
+           "desynchronised history would show as a mismatch here as well",
+           "lark LALR engine + contextual lexer are re-modelled by a hand-written lexer / recursive-descent parser",
+           "tree-level cases (ldfs / lbfs / lgather / lxpath / lcalc): the model reads the chain off the structure of the tree "
+           "value; that this is what the heap's parent pointers give is now a theorem (heapChain_isChain / heapChain_unique / "
+           "legacy_match_heap, given C18's invariant) and is exercised by the heap-level cases",
            "prune / filter callbacks are modelled as pure functions of the node object"]
 ASSUMPTIONS = ["trees are attached and admissible: every node object was created once and sits at exactly one position",
                "history edits are the library's own operations and are only continued while they succeed (a rejected "
@@ -318,9 +357,49 @@ LATE = {"classes_defined_after_first_use": 0, "texts_rejected_before_definition"
         "texts_accepted_after_definition": 0, "of_which_matching_a_node": 0}
 
 
+HEAP = {"histories": 0, "histories_skipped": 0, "operations_replayed": 0, "objects_queried": 0, "worker_failures": 0}
+
+
 def extra_coverage():
     return {"xpath_cases_with_a_match": N_MATCHED, "xpath_cases_with_two_digit_index_matching": N_IDX2,
-            "calc_histories": HIST, "late_class_histories": LATE}
+            "calc_histories": HIST, "late_class_histories": LATE, "heap_histories": HEAP}
+
+
+# ------------------------------------------------------------------ heap level (legacy histories, fresh process)
+
+def heap_history_cases(rng, n_hist, lo, hi):
+    """legacy HISTORIES on the real code, then xpath match / ancestors / dfs / bfs / gather / calculate_xpath on every object
+    of the final heap, against the heap-level model (request `lhxpath`); run in a fresh interpreter (the C18 zoo and the C20
+    zoo define classes of the same names): see harness/c20_heap_worker.py"""
+    worker = Path(__file__).resolve().parents[1] / "c20_heap_worker.py"
+    seed = rng.getrandbits(32)
+    lines, err = [], ""
+    try:
+        p = subprocess.run([sys.executable, str(worker), str(seed), str(n_hist), str(lo), str(hi)], capture_output=True,
+                           text=True, timeout=1500, env=dict(os.environ))
+        lines = [ln for ln in p.stdout.splitlines() if ln.startswith("{")]
+        err = (p.stderr or "")[-400:]
+        if p.returncode != 0:
+            lines = lines if lines else []
+            HEAP["worker_failures"] += 1
+            yield Case("lhxpath-worker", None, None, True, f"worker exit {p.returncode}: {err}",
+                       oracle_fail="the heap-history worker failed", sig="lhxpath|worker")
+    except Exception as e:  # noqa
+        HEAP["worker_failures"] += 1
+        yield Case("lhxpath-worker", None, None, True, f"worker raised {type(e).__name__}: {e}"[:300],
+                   oracle_fail="the heap-history worker failed", sig="lhxpath|worker")
+        return
+    for ln in lines:
+        r = json.loads(ln)
+        if "skip" in r:
+            HEAP["histories_skipped"] += 1
+            continue
+        HEAP["histories"] += 1
+        HEAP["operations_replayed"] += r["ops"]
+        HEAP["objects_queried"] += r["objects"]
+        for k, v in r["stats"].items():
+            HEAP[k] = HEAP.get(k, 0) + v
+        yield Case("lhxpath", r["line"], r["real"], r["nontrivial"], r["desc"], sig="lhxpath|history")
 
 
 def xpath_cases(rng, root, env, toks, chains, text, desc):
@@ -690,6 +769,7 @@ def cases(rng: random.Random, tier: str):
         root = g.tree(rng.choice(sizes))
         yield from _tree_cases(rng, root, per_tree)
     yield from history_cases(rng, 300 if tier == "quick" else 4000, [3, 5, 8, 12, 20, 40])
+    yield from heap_history_cases(rng, 60 if tier == "quick" else 900, 15, 40)
     yield from late_class_cases(rng, 40 if tier == "quick" else 400, 6 if tier == "quick" else 10)
     if tier == "thorough":
         # exhaustive predicates on small start subtrees
